@@ -238,6 +238,10 @@ PROPS = {
             dict(mode="detx", name="timer_thread", quick=3, thorough=24, nontrivial=r" opt\.take 0 0 [1-9]", timeout=600),
             # wp-sleep: coroutine::sleep / park_timeout on the REAL runtime and timer thread (nobody rescues: a lost time-out is a hang)
             dict(mode="live", name="sleep_live", quick=2400, thorough=24000, nontrivial=r" sleep\.sleep_co@\S+ opt\.take 0 0 [0-9]", timeout=600),
+            # the C02 park family also serves C08: timed parks of 1 ms .. 2 s (whole seconds included, seeded change C08_d) that are
+            # ended by an unpark or by their time-out on the real runtime; oracle: Timeout never before the requested duration
+            dict(mode="live", name="park", quick=300, thorough=4000, nontrivial=r" park\.wait_co@\S+ opt\.take 0 0 [0-9]", timeout=600),
+            dict(mode="live", name="blocker", quick=240, thorough=3000, nontrivial=r"(opt\.take 0 0 [0-9]|ret - blk\.park 1 )", timeout=600),
         ],
         trusted_base=TB_COMMON + [
             "sleep_live (live mode): the recorded trace (a linearization of the hooked operations, logged under one lock) is the replay artefact; schedules come from the OS plus seeded perturbation; replayed by the product of one Cancel model (C09: the model with the steps of Sleep::subscribe / Park::subscribe) per coroutine, the timer being the shared event actor - a taken coroutine is attributed to its component by the pointer value; the timer-list operations in the trace are skipped there (the det families replay those)",
@@ -398,10 +402,11 @@ PROPS["C18"] = dict(
     trusted_base=TB_IO,
     assumptions=IO_ASSUME + [
         "F2 (AtomicDuration truncation) is fixed in /repo: io_timeout_not_early is about the rounding-up conversion and holds for every duration; the io_timeout family uses 0.3 / 0.7 ms and 1-64 ms plus 0 / 1 / 250 / 500 / 999 us for the expiring operations and 400-700 ms for the fed ones, the race family 0.3-3 ms",
+        "the replay demands the result check of a coroutine caller: after `cancel.clear()` its next event must be the note `para.get v` of co_io_result (hook notes of 85a4962), v = 1 iff the model says the wait was ended by the timer (theorem io_wait_result_consumed; seeded order: io_wait_result_left_witness on `initLate`); a plain-thread caller gets the result through ASSOCIATED_IO_RET, which is not hooked: covered by the oracle of kind=stale_result only",
         "TcpListener / UnixListener have no accept time-out in may's API and no loopback address black-holes a connect, so time-outs are exercised on read (TCP, Unix stream) and recv_from (UDP)",
         "cancel: io_cancel_ends_with_cancel is the all-interleavings quiescence form (cancel bit set, blocked in a REGISTERING operation - read / recv / accept / connect - and everything quiet => in a run queue), io_cancel_resumed_is_cancel the steps around it; write / send do not register for io cancel in the code (they are cancelled when they are resumed for another reason): not covered by the theorem, not a finding",
     ],
-    rule="live mode, real sockets: io_timeout = 2-4 (2-7 thorough) operations on ONE socket (TCP, Unix stream, UDP; coroutine or thread reader): `idle` read with a 0.3-64.999 ms time-out (sub-millisecond, whole and non-integral milliseconds) and nothing sent (must fail with TimedOut, elapsed >= time-out, no upper bound), `fed` read with 400-700 ms and data after 0-3 ms (data, or a not-early time-out on a slow machine and the data in a later read), `after` read with NO or a 4x longer time-out right after a timed one, data after the earlier deadline (must not fail / return early); io_timeout_race = the same with 0.3-3 ms time-outs only (the timer fires while its wait is being set up / completed / already over); a runtime thread that panics inside src/io or the timer list, and a reader that never comes back (4 s without any hooked event), are oracle failures `F26:`; io_cancel = a coroutine blocked in TCP/Unix read (optionally with a 1.5 s time-out armed, optionally after consuming 1-2000 bytes), in accept, or - victim=two_sock - in a read on socket B right after a read on socket A that blocked and was served, is cancelled after 0-3000 us by main or a thread, 0-1 (0-2) other connections transfer concurrently: join returns the Cancel error (a victim that is never resumed, 2.5 s without any hooked event: `F27:`), the victim's captured state is dropped exactly once, its peer(s) read EOF, the other transfers pass the stream oracle; io_cancel_shared = a coroutine blocked in recv_from with a 40-100 ms time-out on an Arc<UdpSocket> is cancelled, a survivor then blocks WITHOUT a time-out on the same socket and is fed after the stale deadline (must get the datagram, never TimedOut); non-trivial = a timer fired or was disarmed / a cancel was issued; distinct = SHA-1 of the canonical trace",
+    rule="live mode, real sockets: io_timeout = 2-4 (2-7 thorough) operations on ONE socket (TCP, Unix stream, UDP; coroutine or thread reader): `idle` read with a 0.3-64.999 ms time-out (sub-millisecond, whole and non-integral milliseconds) and nothing sent (must fail with TimedOut, elapsed >= time-out, no upper bound), `fed` read with 400-700 ms and data after 0-3 ms (data, or a not-early time-out on a slow machine and the data in a later read), `after` read with NO or a 4x longer time-out right after a timed one, data after the earlier deadline (must not fail / return early); io_timeout_race = the same with 0.3-3 ms time-outs only (the timer fires while its wait is being set up / completed / already over); in 30 % of its scenarios kind=stale_result: 1-3 rounds on one coroutine / plain thread of (A) a read with a 1-3 ms time-out on a TCP / Unix stream whose data is written exactly when the timeout handler has taken the reader and is about to leave TimedOut for it (the handler is held there for 2-5 ms; (A) ends with a not-early TimedOut or with the data, what it did not hand out comes out of a drain read) followed by (B) a blocking operation of another kind with a 5 s or no time-out that is served 0.5-3 ms later - peek on the same stream, recv_from on a UDP socket of the same actor, accept on a listener of the same actor, a 256 KB write that has to wait for buffer space: (B) must not fail with TimedOut before its own deadline (`stale io result delivered to a later operation`); a runtime thread that panics inside src/io or the timer list, and a reader that never comes back (4 s without any hooked event), are oracle failures `F26:`; io_cancel = a coroutine blocked in TCP/Unix read (optionally with a 1.5 s time-out armed, optionally after consuming 1-2000 bytes), in accept, or - victim=two_sock - in a read on socket B right after a read on socket A that blocked and was served, is cancelled after 0-3000 us by main or a thread, 0-1 (0-2) other connections transfer concurrently: join returns the Cancel error (a victim that is never resumed, 2.5 s without any hooked event: `F27:`), the victim's captured state is dropped exactly once, its peer(s) read EOF, the other transfers pass the stream oracle; io_cancel_shared = a coroutine blocked in recv_from with a 40-100 ms time-out on an Arc<UdpSocket> is cancelled, a survivor then blocks WITHOUT a time-out on the same socket and is fed after the stale deadline (must get the datagram, never TimedOut); non-trivial = a timer fired or was disarmed / a cancel was issued; distinct = SHA-1 of the canonical trace",
     explanation="PARTIAL BY NATURE: kernel and clock = environment; promptness measured, never asserted. The defects of the trees without the io fixes are labelled witnesses on the model variants initPinned / initHead and regression shapes of the default families (pending_fixes/README-io.md, pending_fixes/wp-io3/README.md)",
 )
 
